@@ -61,6 +61,8 @@ static std::vector<Script> scripts(int threads) {
         {"S16-threads-8-to-6", {H1, "setoption name Threads value 8", W1, "go depth 1", "@await bestmove", "setoption name Threads value 6", PW, "go depth 1", "@await bestmove", "quit"}},
         {"S17-threads-2-to-7", {H1, "setoption name Threads value 2", PW, "go depth 1", "@await bestmove", "setoption name Threads value 7", PB, "go depth 2", "@await bestmove", "quit"}},
         {"S18-ponder-movetime-ponderhit", {H1, th, PW, "go ponder movetime 60", "ponderhit", "@await bestmove", "quit"}},
+        // six threads: helper 1 gets a helper of its own, so stop acknowledgements are forwarded through an inner node of the worker tree
+        {"S19-threads6-stop-then-go", {H1, "setoption name Threads value 6", W1, "go infinite", "stop", "@await bestmove", PB, "go depth 1", "@await bestmove", "quit"}},
         {"S13-stop-after-finished", {H1, th, W1, "go depth 1", "@await bestmove", "stop", "isready", "@await readyok", PB, "go depth 1", "@await bestmove", "quit"}},
     };
 }
@@ -247,7 +249,7 @@ int main(int argc, char** argv) {
     if (w.args.has("dump")) {
         // debugging aid: run the default schedule of one script twice and print the (thread, op, options) sequences
         for (int th : thr) for (auto& sc : scripts(th)) {
-            if (only.empty() ? (sc.name[0] == 'D' || sc.name == "S16-threads-8-to-6" || sc.name == "S17-threads-2-to-7") : (";" + only + ";").find(";" + sc.name.substr(0, sc.name.find('-')) + ";") == std::string::npos) continue;
+            if (only.empty() ? (sc.name[0] == 'D' || sc.name == "S16-threads-8-to-6" || sc.name == "S17-threads-2-to-7" || sc.name == "S19-threads6-stop-then-go") : (";" + only + ";").find(";" + sc.name.substr(0, sc.name.find('-')) + ";") == std::string::npos) continue;
             for (int k = 0; k < 2; k++) {
                 ses::Transcript t = runScheduled(sc.lines, parseChoices(w.args.get("choices", "")));
                 std::string f = w.args.get("dump") + "." + std::to_string(k);
@@ -265,7 +267,7 @@ int main(int argc, char** argv) {
         FREE = true;
         int reps = (int)w.args.getInt("reps", 2); unsigned long long id = 0;
         for (int th : thr) for (auto& sc : scripts(th)) {
-            if (only.empty() ? (sc.name[0] == 'D' || sc.name == "S16-threads-8-to-6" || sc.name == "S17-threads-2-to-7") : (";" + only + ";").find(";" + sc.name.substr(0, sc.name.find('-')) + ";") == std::string::npos) continue;
+            if (only.empty() ? (sc.name[0] == 'D' || sc.name == "S16-threads-8-to-6" || sc.name == "S17-threads-2-to-7" || sc.name == "S19-threads6-stop-then-go") : (";" + only + ";").find(";" + sc.name.substr(0, sc.name.find('-')) + ";") == std::string::npos) continue;
             for (int r = 0; r < reps; r++) { if (!w.mine(id++)) continue; W->crumb("free " + sc.name); ses::Transcript t = runScheduled(sc.lines, {}, 120); sharedTrace->fingerprint = id; judge(sc, th, {}, t); }
         }
         R.count("evaluations", R.counters["schedules"]); w.finish(R); return 0;
@@ -301,7 +303,7 @@ int main(int argc, char** argv) {
     }
     unsigned long long workId = 0;
     for (int th : thr) for (auto& sc : scripts(th)) {
-        if (only.empty() ? (sc.name[0] == 'D' || sc.name == "S16-threads-8-to-6" || sc.name == "S17-threads-2-to-7") : (";" + only + ";").find(";" + sc.name.substr(0, sc.name.find('-')) + ";") == std::string::npos) continue;
+        if (only.empty() ? (sc.name[0] == 'D' || sc.name == "S16-threads-8-to-6" || sc.name == "S17-threads-2-to-7" || sc.name == "S19-threads6-stop-then-go") : (";" + only + ";").find(";" + sc.name.substr(0, sc.name.find('-')) + ";") == std::string::npos) continue;
         explore(sc, th, bound, workId);
         if (!R.exhaustive) break;
         if (R.samples.size() < 3) R.sampleStr(sc.name + " threads=" + std::to_string(th) + " points(default)=" + std::to_string(sharedTrace->nPoints));
